@@ -32,6 +32,12 @@ def run(ctx):
                                {"op": "create", "at": "", "h": ["md5"], "now": "2026-03-01 12:00:02", "i": ["*.log", "!keep.log", "*.tmp"]},
                                {"op": "create", "at": "", "h": ["md5"], "now": "2026-03-01 12:00:03", "i": again}, {"op": "create", "at": "s", "h": ["md5"], "now": "2026-03-01 12:00:04", "i": again},
                                {"op": "create", "at": "", "h": ["sha1"], "now": "2026-03-01 12:00:05"}, {"op": "verify", "at": ""}]})
+    # a folder re-included after a file pattern excluded files in it: the last matching pattern decides
+    for split in (False, True):
+        first = {"op": "create", "at": "", "h": ["md5"], "now": "2026-03-01 12:00:01", "i": ["*.tmp"] if split else ["*.tmp", "!keep/"]}
+        second = {"op": "create", "at": "", "h": ["md5"], "now": "2026-03-01 12:00:02", "i": ["!keep/"] if split else []}
+        scs.insert(0, {"profile": "c02-folder-negation", "impl_only": True, "root": "root", "tree": {"keep/render.tmp": "r", "keep/sub/proxy.tmp": "p", "other/x.tmp": "x", "a.txt": "a", "top.tmp": "t"},
+                       "ops": [first, second, {"op": "verify", "at": ""}]})
     # the path glue of the command line (MhlModel/Paths.lean): the library functions against posixpath, the recorded
     # path of create -sf / the answer of verify -sf against the model's prediction
     from .. import paths_case
